@@ -474,3 +474,24 @@ Qed.
 Lemma parse_material_void mat rest : int_of_token mat = Some 0%Z ->
   parse_material (mat :: rest) = Ok (mat, None).
 Proof. intros H. unfold parse_material. now rewrite H. Qed.
+
+(* ---- LIKE n BUT ---- *)
+(* a density given by RHO= is stored like the same spelling on a cell card *)
+Theorem cell_material_rho toks m0 d0 kmat n pad m :
+  parse_material toks = Ok (m0, d0) -> wf_number n = true -> marker_ok n m = true ->
+  cell_material toks kmat (Some (spell n pad m)) =
+    Ok (match kmat with Some x => x | None => m0 end, Some (normal_form n pad)).
+Proof.
+  intros H W M. unfold cell_material. rewrite H, (norm_spell n pad m W M). reflexivity.
+Qed.
+
+(* without keywords the base pair is kept *)
+Lemma cell_material_plain toks : cell_material toks None None =
+  match parse_material toks with Ok (m, d) => Ok (m, d) | Err e => Err e end.
+Proof. unfold cell_material. destruct (parse_material toks) as [[m d]|]; reflexivity. Qed.
+
+(* MAT=0 on a copy of a cell with a density: a void cell that keeps a density
+   (finding like_but_mat_void) *)
+Theorem cell_material_void_refuted :
+  exists toks d, cell_material toks (Some "0") None = Ok ("0", Some d).
+Proof. exists ["1"; "-1.0"], "-1.0". reflexivity. Qed.
